@@ -25,6 +25,7 @@ prop("C02", [
     S(REASM, "^TestC02Regress$", kind="plain"),
     S(REASM, "^TestC02$", q=20000, t=200000, shards=16),
     S(REASM, "^TestC02Large$", kind="plain"),
+    S(REASM, "^TestC02Distance$", kind="plain"),
 ], REASM_ASSUME + ["sequence numbers of a history lie in one 2^24 window (stated by the property)"],
    nontrivial_classes=["history-with-out-of-order-buffering", "history-straddling-seam", "history-with-late-arrival", "history-with-push-from-eventslost"])
 
